@@ -2,7 +2,7 @@
 C02 — refinement: the stream, written through the offsets the code computes, behaves as the abstract
 array indexed by (segment, view, axial position, tangential position, TOF bin).
 -/
-import StirVerif.C02.ProofsPaths
+import StirVerif.C02.ProofsMore
 
 namespace StirVerif.C02
 
@@ -80,6 +80,7 @@ inductive Op (α : Type) where
   | setSegByView (seg tof : Int) (vals : List α)
   | setRelated (pairs : List (Int × Int)) (tof : Int) (vals : List α)
   | fill (v : α)
+  | fillFrom (vals : List α)
 
 /-- the addresses the code writes (transcription of the seek/write pattern) -/
 def Op.addrs {α : Type} (l : Layout) : Op α → Except Err (List Int)
@@ -90,6 +91,7 @@ def Op.addrs {α : Type} (l : Layout) : Op α → Except Err (List Int)
   | .setSegByView s k _ => addrsSegByView l s k
   | .setRelated ps k _ => addrsRelated l ps k
   | .fill _ => addrsFill l
+  | .fillFrom _ => addrsAll l
 
 /-- the bins the request means -/
 def Op.bins {α : Type} (l : Layout) : Op α → List Bin
@@ -100,6 +102,7 @@ def Op.bins {α : Type} (l : Layout) : Op α → List Bin
   | .setSegByView s k _ => binsSegByView l s k
   | .setRelated ps k _ => binsRelated l ps k
   | .fill _ => binsFill l
+  | .fillFrom _ => binsAll l
 
 def Op.vals {α : Type} (l : Layout) : Op α → List α
   | .setBin _ v => [v]
@@ -109,6 +112,7 @@ def Op.vals {α : Type} (l : Layout) : Op α → List α
   | .setSegByView _ _ vs => vs
   | .setRelated _ _ vs => vs
   | .fill v => List.replicate (binsFill l).length v
+  | .fillFrom vs => vs
 
 /-- the request is inside the index ranges -/
 def Op.Valid {α : Type} (l : Layout) : Op α → Prop
@@ -119,6 +123,7 @@ def Op.Valid {α : Type} (l : Layout) : Op α → Prop
   | .setSegByView s k _ => SegOK l s ∧ TofOK l k
   | .setRelated ps k _ => (∀ q ∈ ps, ViewOK l q.1 ∧ SegOK l q.2) ∧ TofOK l k
   | .fill _ => True
+  | .fillFrom _ => l.minSeg ≤ 0 ∧ 0 ≤ l.maxSeg
 
 theorem Op.addrs_eq {α : Type} {l : Layout} (p : l.Pos) (op : Op α) (hv : op.Valid l) :
     op.addrs l = .ok ((op.bins l).map (rawOffset l)) := by
@@ -130,6 +135,7 @@ theorem Op.addrs_eq {α : Type} {l : Layout} (p : l.Pos) (op : Op α) (hv : op.V
   | setSegByView s k vs => exact segByView_addrs p hv.1 hv.2
   | setRelated ps k vs => exact related_addrs p hv.1 hv.2
   | fill v => exact fill_addrs p
+  | fillFrom vs => exact all_addrs p hv.1 hv.2
 
 theorem Op.bins_inRange {α : Type} {l : Layout} (p : l.Pos) (op : Op α) (hv : op.Valid l) :
     ∀ b ∈ op.bins l, InRange l b := by
@@ -141,6 +147,7 @@ theorem Op.bins_inRange {α : Type} {l : Layout} (p : l.Pos) (op : Op α) (hv : 
   | setSegByView s k vs => exact binsSegByView_inRange p hv.1 hv.2
   | setRelated ps k vs => exact binsRelated_inRange p hv.1 hv.2
   | fill v => exact binsFill_inRange p
+  | fillFrom vs => exact binsAll_inRange p hv.1 hv.2
 
 /-- what the code does to the stream: values are laid down at the addresses of the path, in order;
     a rejected request (`error()`) leaves the stream alone -/
